@@ -212,12 +212,80 @@ pub fn run_c10(ctx: &Ctx, out: &mut Out) {
             break;
         }
     }
+    real_binary_restarts(ctx, out, &mut rng);
+    out.floor("real_binary_starts", 4);
     out.floor("seeds_checked", 5_000);
     out.floor("api_certs_checked", 5_000);
     out.floor("server_instances", 100);
     out.floor("srv_commitment_probes", 100);
     out.floor("certs_from_replies_classic", 100);
     out.floor("certs_from_replies_ietf", 100);
+}
+
+/// the real server binary restarted several times with one seed, over both configuration sources
+fn real_binary_restarts(ctx: &Ctx, out: &mut Out, rng: &mut Rng) {
+    use crate::procs::*;
+    if ctx.shard >= 4 && !ctx.thorough {
+        return;
+    }
+    let seed = rng.bytes(32);
+    let pk = RefKey::from_seed(&seed).public();
+    let desc = json!({"kind":"real-restarts","seed":hex(&seed)});
+    let starts = if ctx.thorough { 20 } else { 3 };
+    let mut online = std::collections::HashSet::new();
+    for k in 0..starts {
+        let mut cfg = SrvCfg::new(free_port(false), &seed);
+        cfg.num_workers = Some(*rng.pick(&[1u32, 2, 4]));
+        cfg.via_env = k % 2 == 1;
+        let Ok(mut sp) = spawn_server(&ctx.bins, &cfg, &ctx.scratch, &format!("c10r{}", k), None) else {
+            out.inconclusive("spawn failed");
+            continue;
+        };
+        if sp.wait_ready(&pk, std::time::Duration::from_secs(10)).is_err() {
+            // readiness itself verifies a reply under the reference key: not ready = C15's business
+            out.inconclusive("real server not ready");
+            continue;
+        }
+        out.obs("real_binary_starts", 1);
+        // the announced key in the start-up log
+        let announced = sp.output().lines().find(|l| l.contains("Long-term public key")).map(|l| l.rsplit(':').next().unwrap_or("").trim().to_string());
+        if let Some(a) = announced {
+            out.obs("real_binary_announced_keys_compared", 1);
+            if a != hex(&pk) {
+                out.violation("C10 announced-public-key differs origin=real-binary", &format!("start-up log announces {} but the RFC 8032 key of the seed is {}", a, hex(&pk)), desc.clone());
+            }
+        }
+        for i in 0..40 {
+            let p = if i % 2 == 0 { Proto::Classic } else { Proto::Ietf };
+            let s = std::net::UdpSocket::bind("127.0.0.1:0").unwrap();
+            let sv = srv_value(&pk);
+            let (pkt, nonce) = make_request(rng, p, if i % 4 == 1 { Some(&sv) } else { None });
+            let addr: std::net::SocketAddr = format!("127.0.0.1:{}", sp.cfg.port).parse().unwrap();
+            s.set_read_timeout(Some(std::time::Duration::from_millis(1500))).unwrap();
+            let _ = s.send_to(&pkt, addr);
+            let mut buf = vec![0u8; 4096];
+            let Ok((n, _)) = s.recv_from(&mut buf) else {
+                out.inconclusive("real server probe unanswered");
+                continue;
+            };
+            let payload = if p == Proto::Ietf { unframe(&buf[..n]).unwrap_or(&[]) } else { &buf[..n] };
+            let Ok(m) = RefMsg::decode(payload) else { continue };
+            let Some(cert) = m.get(CERT) else { continue };
+            let midp = m.get(SREP).and_then(|s| RefMsg::decode(s).ok()).and_then(|s| s.get(MIDP).map(|b| u64::from_le_bytes(b.try_into().unwrap_or([0; 8]))));
+            out.obs("certs_from_real_binary", 1);
+            check_cert(out, cert, &pk, p, midp, "real-binary", &desc);
+            let view = crate::refimpl::verify::ReqView { proto: p, packet: &pkt, nonce };
+            if let Ok(v) = crate::refimpl::verify::verify_response(&view, &buf[..n], &pk, crate::refimpl::verify::Opts { strict: true }) {
+                online.insert(v.online_pk);
+            }
+        }
+        sp.signal(libc::SIGTERM);
+        if sp.wait_exit(std::time::Duration::from_secs(10)).is_none() {
+            sp.kill();
+        }
+    }
+    out.obs("distinct_online_keys_certified_real_binary", online.len() as i64);
+    out.case(fnv64(&seed) ^ 0x10, true);
 }
 
 // ------------------------------------------------------------------------------------ C11
